@@ -333,10 +333,10 @@ def raise_sig(res, info):
     return f"write/raises-{res.kind}/{ctx}", repr(res)
 
 
-def run_history(plan, datadir, crash_at=None, arm_last=False):
+def run_history(plan, datadir, crash_at=None, arm_last=False, bufsize=0):
     """Replay the case against the library in datadir, the reference model running alongside.
     Returns dict(failure=(sig, detail)|None, fs=FaultFS, obs=files, odd=names, last=(before, after, info)|None)."""
-    fs = FaultFS(crash_at=crash_at)
+    fs = FaultFS(crash_at=crash_at, bufsize=bufsize)
     materialize(plan, datadir)
     out = {"failure": None, "fs": fs, "last": None}
     live = plan.init_model.copy()
@@ -480,6 +480,24 @@ def check_crash(case):
             if bad and bad[0] not in seen:
                 seen.add(bad[0])
                 f.add(f"crash/{bad[0]}/first-at-{_point_kind(points[i])}", f"point {i}/{n} {points[i]}: {bad[1]}")
+        # the same batch under the buffered model (what reaches the disk is decided by flush/close, a crash discards
+        # unflushed buffers): Python's default buffer, and one small enough for larger records to go straight through
+        for bufsize in (8192, max(9, plan.L // 3)):
+            dryb = run_history(plan, d, arm_last=True, bufsize=bufsize)
+            if dryb["failure"]:
+                f.add(dryb["failure"][0] + "/buffered-model", dryb["failure"][1])
+                break
+            pts = dryb["fs"].points
+            cls.add("nt:crash-buffered-model")
+            for i in range(len(pts)):
+                out = run_history(plan, d, crash_at=i, bufsize=bufsize)
+                fs = out["fs"]
+                if fs.crashed is None or tuple(fs.crashed) != tuple(pts[i]):
+                    raise RuntimeError(f"C19 harness: fault point {i} {pts[i]} not reproduced under bufsize {bufsize} (got {fs.crashed})")
+                bad = judge_crash(plan, before, after, out["obs"], out["odd"])
+                if bad and ("buffered/" + bad[0]) not in seen:
+                    seen.add("buffered/" + bad[0])
+                    f.add(f"crash-buffered/{bad[0]}/first-at-{_point_kind(pts[i])}", f"bufsize {bufsize}, point {i}/{len(pts)} {pts[i]}: {bad[1]}")
     return sorted(cls), f
 
 
@@ -648,6 +666,6 @@ def targets(tier):
             check_crash,
             strategy=lambda tier: histories(crash=True),
             budget={"quick": 300, "thorough": 5000},
-            required=["nt:crash-mid-record", "nt:crash-at-rollover", "nt:rollover", "nt:restart-then-append", "prepopulated>10"],
+            required=["nt:crash-mid-record", "nt:crash-at-rollover", "nt:crash-buffered-model", "nt:rollover", "nt:restart-then-append", "prepopulated>10"],
         ),
     ]
